@@ -374,14 +374,15 @@ Proof.
   apply existsb_exists in E as [m [Hm Hf]]. apply String.eqb_eq in Hf. exfalso. exact (H m Hm Hf).
 Qed.
 
-(* what finding classes 1 and 2 exclude, per received attribute *)
+(* what finding class 1 excludes, per received attribute (class 2 — empty NameID text, local name
+   eduPersonTargetedID in another case — is gone since 16472e5d, class 3 — another local name for
+   the eduPersonTargetedID OID — since 09ff19a1): the converters that carry name format f agree on n *)
 Definition recv_guard (acs : list conv) (w : wattr) : Prop :=
   forall n f, wname w = Some n -> wnf w = Some f ->
-    (* (class 1) the converters that carry name format f agree on n *)
-    (forall m m', In m acs -> In m' acs -> nf m = f -> nf m' = f -> local_name m n = local_name m' n) /\
-    (* (class 2) a NameID-wrapped value is not empty and the local name is spelled eduPersonTargetedID *)
-    (forall m v, In m acs -> nf m = f -> In v (wvals w) -> is_wrapped v = true ->
-       local_name m n = Some EPTID_LOCAL /\ payload v <> "").
+    forall m m', In m acs -> In m' acs -> nf m = f -> nf m' = f -> local_name m n = local_name m' n.
+
+Lemma strip_oid : strip EPTID_OID = EPTID_OID.
+Proof. vm_compute. reflexivity. Qed.
 
 Lemma map_ext_In {A B} (f g : A -> B) l : (forall x, In x l -> f x = g x) -> map f l = map g l.
 Proof.
@@ -411,7 +412,7 @@ Qed.
 Lemma contrib_resolve acs allow w :
   in_scope_attr acs w -> recv_guard acs w -> contrib acs allow true w = olist (resolve acs allow w).
 Proof.
-  intros (n & f & Hn & Hf & Hwrap) G. destruct (G n f Hn Hf) as [G1 G2].
+  intros (n & f & Hn & Hf & Hwrap) G. pose proof (G n f Hn Hf) as G1.
   unfold contrib, resolve. rewrite Hn, Hf.
   destruct (receiver acs f) as [r|] eqn:R.
   - destruct (receiver_some _ _ _ R) as [Hr Hrf].
@@ -423,8 +424,10 @@ Proof.
         - exact (kt_raw_nonempty _ _ _ _ _ Hr Hrf L). }
       unfold targets. rewrite Hkt. cbn [map olist]. do 2 f_equal.
       unfold trimmed. apply map_ext_In. intros v Hv. destruct v as [s|at' s]; [reflexivity|].
-      destruct (G2 r _ Hr Hrf Hv eq_refl) as [Ha Hp]. rewrite L in Ha. inversion Ha; subst a.
-      cbn [recv_val payload] in *. rewrite String.eqb_refl. apply is_empty_false in Hp. rewrite Hp. reflexivity.
+      assert (Hex : existsb is_wrapped (wvals w) = true).
+      { apply existsb_exists. exists (WNameID at' s). split; [exact Hv|reflexivity]. }
+      destruct (Hwrap Hex) as [Hoid _].
+      cbn [recv_val payload eptid_wire]. rewrite Hoid, String.eqb_refl, orb_true_r. reflexivity.
     + assert (Hkt : known_targets acs n f = []).
       { rewrite known_targets_raw, kt_raw_nil; [reflexivity|].
         intros m Hm Hmf. rewrite (G1 m r Hm Hr Hmf Hrf). exact L. }
@@ -461,11 +464,9 @@ Qed.
 Lemma recv_guard_unique acs w :
   NoDup (map nf acs) -> existsb is_wrapped (wvals w) = false -> recv_guard acs w.
 Proof.
-  intros Hn Hw n f _ _. split.
-  - intros m m' Hm Hm' E E'. subst f.
-    pose proof (unique_sender _ _ Hn Hm) as S1. pose proof (unique_sender _ _ Hn Hm') as S2.
-    rewrite E' in S2. congruence.
-  - intros m v _ _ Hv Hwv. rewrite (no_wrapped _ Hw v Hv) in Hwv. discriminate.
+  intros Hn Hw n f _ _ m m' Hm Hm' E E'. subst f.
+  pose proof (unique_sender _ _ Hn Hm) as S1. pose proof (unique_sender _ _ Hn Hm') as S2.
+  rewrite E' in S2. congruence.
 Qed.
 
 Definition unknown_to (acs : list conv) (n f : string) : Prop :=
@@ -576,28 +577,21 @@ Definition canonical (s r : conv) (a : list (string * list string)) : ava :=
                                | None => []
                                end) a).
 
-(* (class 2 excluded) an eduPersonTargetedID attribute comes back under that spelling and has no empty value *)
-Definition eptid_fine (s r : conv) (e : string * list string) : Prop :=
-  wire_name s (fst e) = Some EPTID_OID ->
-  local_name r EPTID_OID = Some EPTID_LOCAL /\ forall v, In v (snd e) -> v <> "".
-
 Lemma harvest_some w f : wnf w = Some f -> harvest w = w.
 Proof. destruct w as [a b c d]. cbn. intros ->. reflexivity. Qed.
 
 Lemma resolve_sent acs s r allow e n c :
   receiver acs (nf s) = Some r -> wire_name s (fst e) = Some n -> local_name r n = Some c ->
-  eptid_fine s r e ->
   resolve acs allow (to_one s e) = Some (c, map (fun v => LStr (strip v)) (snd e)).
 Proof.
-  intros R Hw Hl He. destruct e as [k vs]. cbn [fst snd] in *.
+  intros R Hw Hl. destruct e as [k vs]. cbn [fst snd] in *.
   pose proof Hw as Hw'. apply wire_name_spec in Hw' as [H1 H2].
   unfold resolve, to_one. cbn [fst snd]. rewrite H1, H2. cbn [wnf]. rewrite R.
   unfold ava_from. cbn [wname wvals]. fold (local_name r n). rewrite Hl.
   do 2 f_equal. destruct (String.eqb n EPTID_OID) eqn:E.
-  - apply String.eqb_eq in E. subst n. destruct (He Hw) as [Hc Hv].
-    rewrite Hl in Hc. inversion Hc; subst c. rewrite map_map. apply map_ext_In. intros v Hin.
-    cbn [recv_val]. rewrite String.eqb_refl. specialize (Hv v Hin). apply is_empty_false in Hv.
-    rewrite Hv. reflexivity.
+  - apply String.eqb_eq in E. subst n.
+    rewrite map_map. apply map_ext_In. intros v Hin.
+    cbn [recv_val eptid_wire]. rewrite strip_oid, String.eqb_refl, orb_true_r. reflexivity.
   - rewrite map_map. reflexivity.
 Qed.
 
@@ -608,7 +602,7 @@ Qed.
    of allow_unknown_attributes. *)
 Theorem send_receive_set acs s r a allow xml :
   sender acs (nf s) = Some s -> receiver acs (nf s) = Some r ->
-  (forall e, In e a -> canon2 s r (fst e) <> None /\ eptid_fine s r e) ->
+  (forall e, In e a -> canon2 s r (fst e) <> None) ->
   roundtrip acs a (nf s) allow xml = Some (canonical s r a).
 Proof.
   intros S R H. unfold roundtrip, from_local. rewrite S. f_equal.
@@ -622,10 +616,10 @@ Proof.
   rewrite Hh, to_local_collapse. unfold canonical. f_equal. clear Hh.
   unfold conv_to. revert H. induction a as [|e a' IH]; intros H; cbn [map flat_map]; [reflexivity|].
   rewrite IH by (intros e' He'; apply H; right; exact He').
-  f_equal. destruct (H e (or_introl eq_refl)) as [Hc He].
+  f_equal. pose proof (H e (or_introl eq_refl)) as Hc.
   unfold canon2 in *. destruct (wire_name s (fst e)) as [n|] eqn:W; [|congruence].
   destruct (local_name r n) as [c|] eqn:L; [|congruence].
-  rewrite (resolve_sent _ _ _ _ _ _ _ R W L He). reflexivity.
+  rewrite (resolve_sent _ _ _ _ _ _ _ R W L). reflexivity.
 Qed.
 
 (* the symmetric single map of the design: to_local [m] (from_local [m] ava) = canonical ava *)
@@ -636,13 +630,13 @@ Definition covered (m : conv) (a : list (string * list string)) : Prop :=
   forall e, In e a -> wire_name m (fst e) <> None.
 
 Theorem send_receive m a allow xml :
-  map_symmetric m -> covered m a -> (forall e, In e a -> eptid_fine m m e) ->
+  map_symmetric m -> covered m a ->
   roundtrip [m] a (nf m) allow xml = Some (canonical m m a).
 Proof.
-  intros Hs Hc He. apply send_receive_set.
+  intros Hs Hc. apply send_receive_set.
   - unfold sender. cbn [find]. rewrite String.eqb_refl. reflexivity.
   - unfold receiver. cbn [rev app find]. rewrite String.eqb_refl. reflexivity.
-  - intros e Hin. split; [|apply He; exact Hin].
+  - intros e Hin.
     unfold canon2. specialize (Hc e Hin). destruct (wire_name m (fst e)) as [n|] eqn:W; [|congruence].
     apply (Hs _ _ W).
 Qed.
@@ -690,7 +684,7 @@ Section GatherFlat.
   Proof. rewrite gather_alt, gany_flat, gvals_flat. reflexivity. Qed.
 End GatherFlat.
 
-(* what the finding classes exclude for a round trip, plus: the maps are symmetric on what is sent *)
+(* what finding class 1 excludes for a round trip, plus: the maps are symmetric on what is sent *)
 Definition round_guard (acs : list conv) (f : string) (a : list (string * list string)) : Prop :=
   forall e, In e a ->
     (* (class 1) the converters carrying f agree on the attribute, in both directions *)
@@ -698,9 +692,7 @@ Definition round_guard (acs : list conv) (f : string) (a : list (string * list s
        wire_name m (fst e) = wire_name m' (fst e) /\
        forall n, wire_name m (fst e) = Some n -> local_name m n = local_name m' n) /\
     (* the wire name a map gives leads back to a local name in that map *)
-    (forall m n, In m acs -> nf m = f -> wire_name m (fst e) = Some n -> local_name m n <> None) /\
-    (* (class 2) *)
-    (forall m, In m acs -> nf m = f -> eptid_fine m m e).
+    (forall m n, In m acs -> nf m = f -> wire_name m (fst e) = Some n -> local_name m n <> None).
 
 Theorem round_holds acs f a allow xml :
   round_guard acs f a -> spec_round acs f a (roundtrip acs a f allow xml).
@@ -710,8 +702,8 @@ Proof.
   destruct (receiver_exists _ _ _ Hm Hf) as [r Hr]. destruct (receiver_some _ _ _ Hr) as [Hrin Hrf].
   (* every attribute sent is defined by s, known to r, and canon2 s r = canon of any map for f *)
   assert (Hcan : forall m', In m' acs -> nf m' = f -> forall e, In e a ->
-                   canon2 s r (fst e) = canon m' (fst e) /\ canon2 s r (fst e) <> None /\ eptid_fine s r e).
-  { intros m' Hm' Hf' e He. destruct (G e He) as (G1 & G2 & G3).
+                   canon2 s r (fst e) = canon m' (fst e) /\ canon2 s r (fst e) <> None).
+  { intros m' Hm' Hf' e He. destruct (G e He) as (G1 & G2).
     destruct (Scope e He) as (m0 & Hm0 & Hf0 & Hw0).
     destruct (G1 s m0 Hsin Hm0 Hsf Hf0) as [E0 _].
     destruct (G1 s m' Hsin Hm' Hsf Hf') as [E1 L1].
@@ -719,14 +711,12 @@ Proof.
     destruct (G1 m' r Hm' Hrin Hf' Hrf) as [_ L3].
     unfold canon2, canon. rewrite <- E1.
     destruct (wire_name s (fst e)) as [n|] eqn:W; [|congruence].
-    rewrite <- (L2 n eq_refl). split; [apply (L1 n eq_refl)|]. split; [apply (G2 s n Hsin Hsf W)|].
-    intros Hw. destruct (G3 s Hsin Hsf Hw) as [Hl Hv]. split; [|exact Hv].
-    rewrite W in Hw. injection Hw as Hn. subst n. rewrite <- (L2 _ eq_refl). exact Hl. }
+    rewrite <- (L2 n eq_refl). split; [apply (L1 n eq_refl)|]. apply (G2 s n Hsin Hsf W). }
   subst f. rewrite <- Hsf.
   rewrite (send_receive_set acs s r a allow xml); [|rewrite Hsf; exact Hs|rewrite Hsf; exact Hr|].
-  2:{ intros e He. destruct (Hcan m Hm eq_refl e He) as (_ & H2 & H3). auto. }
+  2:{ intros e He. destruct (Hcan m Hm eq_refl e He) as (_ & H2). auto. }
   exists (canonical s r a). split; [reflexivity|].
-  intros e He Hw. destruct (Hcan m Hm eq_refl e He) as (H1 & H2 & _).
+  intros e He Hw. destruct (Hcan m Hm eq_refl e He) as (H1 & H2).
   destruct (canon m (fst e)) as [c|] eqn:C; [|congruence].
   exists c. split; [reflexivity|].
   rewrite canonical_lookup.
@@ -736,7 +726,7 @@ Proof.
                flat_map (fun e0 => match canon m (fst e0) with
                                    | Some c' => [(c', map (fun v => LStr (strip v)) (snd e0))]
                                    | None => [] end) a).
-  { apply flat_map_ext_In. intros e0 He0. destruct (Hcan m Hm eq_refl e0 He0) as (E & _ & _).
+  { apply flat_map_ext_In. intros e0 He0. destruct (Hcan m Hm eq_refl e0 He0) as (E & _).
     rewrite E. reflexivity. }
   rewrite HF.
   rewrite (gather_flat (fun e0 => canon m (fst e0)) (fun e0 => map (fun v => LStr (strip v)) (snd e0))).
@@ -748,13 +738,12 @@ Qed.
 (* with one converter per name format, class 1 is void *)
 Lemma round_guard_unique acs f a :
   NoDup (map nf acs) ->
-  (forall m, In m acs -> nf m = f -> map_symmetric m /\ forall e, In e a -> eptid_fine m m e) ->
+  (forall m, In m acs -> nf m = f -> map_symmetric m) ->
   round_guard acs f a.
 Proof.
-  intros Hn H e He. split; [|split].
+  intros Hn H e He. split.
   - intros m m' Hm Hm' E E'. subst f.
     pose proof (unique_sender _ _ Hn Hm) as S1. pose proof (unique_sender _ _ Hn Hm') as S2.
     rewrite E' in S2. assert (m = m') by congruence. subst m'. auto.
-  - intros m n Hm Hf Hw. destruct (H m Hm Hf) as [Hs _]. exact (Hs _ _ Hw).
-  - intros m Hm Hf. destruct (H m Hm Hf) as [_ Hx]. exact (Hx e He).
+  - intros m n Hm Hf Hw. exact (H m Hm Hf _ _ Hw).
 Qed.
